@@ -16,6 +16,7 @@ from typing import Any, Awaitable, Callable
 import anyio
 
 WATCHDOG = 1.0e7  # virtual seconds
+LIVELOCK_POLLS = 5000  # consecutive busy loop iterations after which virtual time is advanced anyway
 
 
 class VirtualDeadlock(Exception):
@@ -28,13 +29,24 @@ class VirtualLoop(asyncio.SelectorEventLoop):
         self._vtime = 0.0
         real_select = self._selector.select
 
+        self._busy_polls = 0
+
         def select(timeout: float | None = None) -> Any:
             events = real_select(0)
             if events or timeout is None or timeout <= 0:
                 if not events and timeout is None:
                     # nothing ready, nothing scheduled and no I/O: a real loop would hang
                     raise VirtualDeadlock("asyncio loop would block for ever")
+                if not events and timeout is not None and self._scheduled:
+                    # The loop is busy (ready callbacks every iteration) while timers are pending - e.g. anyio
+                    # re-delivering a cancellation to a shielded task with call_soon().  On a real clock time
+                    # passes while it spins; emulate that, or virtual time would never reach the timers.
+                    self._busy_polls += 1
+                    if self._busy_polls >= LIVELOCK_POLLS:
+                        self._busy_polls = 0
+                        self._vtime = max(self._vtime, self._scheduled[0]._when)
                 return events
+            self._busy_polls = 0
             # jump exactly to the next timer (no float drift), capped like asyncio does
             sched = self._scheduled
             target = self._vtime + timeout
@@ -58,11 +70,34 @@ def _seed_trio(seed: int, shuffle: bool) -> None:
     tr._ALLOW_DETERMINISTIC_SCHEDULING = shuffle  # type: ignore[misc]
 
 
+def _make_trio_clock() -> Any:
+    import trio.lowlevel
+    import trio.testing
+
+    # MockClock is final: patch the hook the run loop calls on the *instance*.  It turns 'every task is blocked
+    # and there is no deadline left' - which not even the watchdog's cancellation can break when the blocked
+    # task is shielded - into VirtualDeadlock instead of spinning for ever.
+    clock = trio.testing.MockClock(autojump_threshold=0)
+    state = {"idle": 0}
+
+    def _autojump() -> None:
+        stats = trio.lowlevel.current_statistics()
+        jump = stats.seconds_to_next_deadline
+        if 0 < jump < float("inf"):
+            state["idle"] = 0
+            clock.jump(jump)
+        elif jump == float("inf") and stats.tasks_runnable == 0 and stats.run_sync_soon_queue_size == 0:
+            state["idle"] += 1
+            if state["idle"] > 50:
+                raise VirtualDeadlock("trio: every task is blocked and no deadline is pending")
+
+    clock._autojump = _autojump  # type: ignore[method-assign]
+    return clock
+
+
 def backend_options(backend: str) -> dict[str, Any]:
     if backend == "trio":
-        import trio.testing
-
-        return {"clock": trio.testing.MockClock(autojump_threshold=0)}
+        return {"clock": _make_trio_clock()}
     return {"loop_factory": VirtualLoop}
 
 
@@ -77,13 +112,23 @@ def run_virtual(
     """Run ``fn(*args)`` in a fresh event loop of ``backend`` under virtual time."""
 
     async def wrapper() -> Any:
+        result = None
         with anyio.move_on_after(watchdog) as scope:
-            return await fn(*args)
-        if scope.cancelled_caught:
+            result = await fn(*args)
+        if scope.cancel_called:  # the deadline passed (even if the case swallowed the cancellation)
             raise VirtualDeadlock(f"case still blocked after {watchdog} virtual seconds")
+        return result
 
     if backend == "trio":
+        import trio
+
         _seed_trio(sched_seed, shuffle)
+        try:
+            return anyio.run(wrapper, backend=backend, backend_options=backend_options(backend))
+        except trio.TrioInternalError as e:
+            if isinstance(e.__cause__, VirtualDeadlock):
+                raise e.__cause__ from None
+            raise
     return anyio.run(wrapper, backend=backend, backend_options=backend_options(backend))
 
 
